@@ -146,3 +146,13 @@ type wire struct {
 }
 
 func UsesWire(w wire) int { return w.A }
+
+func FreshLie(xs []int) []int { return xs }
+
+func FreshTrue(xs []int) []int {
+	var out []int
+	for _, x := range xs {
+		out = append(out, x)
+	}
+	return out
+}
